@@ -279,6 +279,22 @@ def c17_eps(ctx):
 # ---------------------------------------------------------------------------------------
 
 
+def _floor_form(w):
+    """(a, b, u) if w is `a + (1 - b * K) * softmax(u, ...)` (names a, b; parameter name u)."""
+    if not (isinstance(w, ast.BinOp) and isinstance(w.op, ast.Add)):
+        return None
+    for a, rest in ((w.left, w.right), (w.right, w.left)):
+        if not isinstance(a, ast.Name) or not (isinstance(rest, ast.BinOp) and isinstance(rest.op, ast.Mult)):
+            continue
+        for fac, sm in ((rest.left, rest.right), (rest.right, rest.left)):
+            if isinstance(sm, ast.Call) and func_last(sm) == "softmax" and sm.args and isinstance(sm.args[0], ast.Name):
+                if isinstance(fac, ast.BinOp) and isinstance(fac.op, ast.Sub) and const_number(fac.left) == 1 and isinstance(fac.right, ast.BinOp) and isinstance(fac.right.op, ast.Mult):
+                    names = [x.id for x in (fac.right.left, fac.right.right) if isinstance(x, ast.Name)]
+                    if names:
+                        return a.id, names[0], sm.args[0].id
+    return None
+
+
 def floor_rule(ctx):
     p = ctx.p
     res = RuleResult("SPL-FLOOR", "bin widths / heights / knot derivatives are positive for every parameter value (floors under their ValueError guards)")
@@ -301,6 +317,16 @@ def floor_rule(ctx):
                             continue
                         s = sign_of(w, g, memo)
                         what = "heights" if deps & HEIGHT_PARAMS else "widths"
+                        ff = _floor_form(w)
+                        if ff is not None:
+                            a, b, u = ff
+                            want = "min_bin_height" if u in HEIGHT_PARAMS else "min_bin_width"
+                            if a != b:
+                                res.fail(Finding("SPL-FLOOR", inner.module, inner.qualname, inner.node, "the floored softmax `%s + (1 - %s * K) * softmax(%s)` uses two different minima: the bin %s then do not sum to one, so the pinned last knot is inconsistent with the bin sizes the slopes are computed from" % (a, b, u, what), construct="floor formula of the bin %s, inverse=%s" % (what, inverse)))
+                            elif a in ("min_bin_width", "min_bin_height") and a != want:
+                                res.fail(Finding("SPL-FLOOR", inner.module, inner.qualname, inner.node, "the bin %s are floored with %s (their guard and documentation use %s)" % (what, a, want), construct="floor parameter of the bin %s, inverse=%s" % (what, inverse)))
+                            else:
+                                res.ok("%s(inverse=%s): bin %s = m + (1 - m*K) * softmax with one m (sums to one)" % (inner.name, inverse, what))
                         if s == POS:
                             res.ok("%s(inverse=%s): bin %s `%s...` positive" % (inner.name, inverse, what, brief(w)[:40]))
                         else:
